@@ -290,7 +290,7 @@ func (vc *VC) queryWith(o *Obligation, model bool, extra string) string {
 		b.WriteByte('\n')
 	}
 	for i, t := range vc.trace[:o.TraceN] {
-		if l := vc.labels[i]; l != "" && (o.dropLabel(l) || (l == "lockstate" && o.Kind != "lock")) {
+		if l := vc.labels[i]; l != "" && (o.dropLabel(l) || (l == "lockstate" && o.Kind != "lock" && !strings.Contains(o.Goal, "H.lock"))) {
 			b.WriteString("; hidden hypothesis [" + l + "]\n")
 			continue
 		}
